@@ -349,6 +349,51 @@ func runC13(p *core.Program, r *core.Report) {
 			}, true)
 			c.ob("PV1", name, "map value read only when the key is present", p.InstrPos(lk), present, "a map value is read without a dominating comma-ok test of the same map and key: a map that lacks the key contributes a phantom zero value that is not an element of the input")
 		}
+		// the value taken from the comma-ok lookup itself (val, ok := m[key]): every
+		// use of the value lies behind ok == true of that very lookup
+		for _, in := range path.Instrs(fn) {
+			ex, ok := in.(*ssa.Extract)
+			if !ok || ex.Index != 0 {
+				continue
+			}
+			lk, ok := ex.Tuple.(*ssa.Lookup)
+			if !ok || !lk.CommaOk {
+				continue
+			}
+			if _, isMap := lk.X.Type().Underlying().(*types.Map); !isMap {
+				continue
+			}
+			isOk := func(v ssa.Value) bool {
+				e2, ok := v.(*ssa.Extract)
+				return ok && e2.Index == 1 && e2.Tuple == ex.Tuple
+			}
+			used := false
+			present := true
+			for _, rf := range *ex.Referrers() {
+				switch u := rf.(type) {
+				case *ssa.DebugRef:
+					continue
+				case *ssa.Phi:
+					for k, e := range u.Edges {
+						if e == ssa.Value(ex) {
+							used = true
+							if !boolGuard(fn, u.Block().Preds[k], isOk, true) {
+								present = false
+							}
+						}
+					}
+				default:
+					used = true
+					if !boolGuard(fn, rf.Block(), isOk, true) {
+						present = false
+					}
+				}
+			}
+			if used {
+				nLook++
+				c.ob("PV1", name, "map value read only when the key is present", p.InstrPos(ex), present, "the value of a comma-ok lookup is used on a path where ok is not known to be true: a map that lacks the key contributes a phantom zero value that is not an element of the input")
+			}
+		}
 		c.ob("PV1", name, "value reads", c.fpos(fn), nLook >= 1, "no map value read found")
 		// update comparisons strict in the promised direction
 		for _, b := range fn.Blocks {
